@@ -388,7 +388,7 @@ impl<'a> Model<'a> {
         let d = self.subs[si].d;
         let prev = self.subs[si].msgs.get(&mkey).cloned();
         let first = self.subs[si].delivered_once.insert(mkey);
-        if first {
+        if first && self.observed_from_start(si, mkey) {
             if let Some(id) = parse_id(&r.msg_id) {
                 let hi_idx = idx;
                 self.subs[si].first_deliveries.push((mkey, lo_idx, hi_idx, id));
@@ -478,6 +478,17 @@ impl<'a> Model<'a> {
         self.subs[si].msgs.insert(mkey, Ms::Leased { ack: r.ack_id.clone(), lo, hi, modified: false, maybe_gone, maybe_acked, hi_known: hi });
     }
 
+    /// Was the message published after the creation of this subscription instance had
+    /// returned? Only then has the model seen every delivery of it on the instance (what a
+    /// name delivers while its create is still in flight is not attributed to an instance),
+    /// so only then is "first delivery" known.
+    fn observed_from_start(&self, si: usize, mkey: u64) -> bool {
+        match self.mrec.get(&mkey) {
+            Some(rec) => self.tr.calls[rec.call].invoke_idx > self.subs[si].cr,
+            None => false,
+        }
+    }
+
     fn deliveries(&mut self, sub: &str, recvs: &[Recv], lo_idx: usize, via_stream: bool, call: CallId) {
         // no response contains the same message twice
         let mut seen = HashSet::new();
@@ -516,7 +527,7 @@ impl<'a> Model<'a> {
         // same-response order of first deliveries (C08)
         let mut last_first: Option<u128> = None;
         for r in recvs {
-            let is_first = self.resolve_recv(r).map(|k| !self.subs[si].delivered_once.contains(&k)).unwrap_or(false);
+            let is_first = self.resolve_recv(r).map(|k| !self.subs[si].delivered_once.contains(&k) && self.observed_from_start(si, k)).unwrap_or(false);
             if is_first && !self.subs[si].ever_tainted {
                 if let Some(id) = parse_id(&r.msg_id) {
                     if let Some(p) = last_first {
@@ -1144,7 +1155,7 @@ impl<'a> Model<'a> {
                             if prev.is_none() {
                                 n.inst = None;
                             }
-                        } else if let Some(p) = prev {
+                        } else if let Some(p) = prev.filter(|p| self.subs[*p].del_i.is_none()) {
                             // two successful creates of one name; which of the two instances the
                             // racing delete removed is not determined by the responses
                             n.inst = Some(id);
